@@ -42,7 +42,7 @@ INT = IntT()
 
 
 class Tok:
-    __slots__ = ("kind", "text", "val", "role", "bind", "lead", "pre", "idx", "start", "end", "path", "uid")
+    __slots__ = ("kind", "text", "val", "role", "bind", "lead", "pre", "idx", "start", "end", "path", "uid", "depth")
     _n = 0
 
     def __init__(s, kind, text, val=None, role=None, bind=None):
@@ -51,6 +51,7 @@ class Tok:
         s.pre = None     # white space directly before this token (layout)
         s.idx = s.start = s.end = None
         s.path = None    # tuple of (node kind, part index) from the root to this token
+        s.depth = None   # nesting depth (set by fmt.set_depths)
         Tok._n += 1; s.uid = Tok._n
 
     def __repr__(s): return "%s:%r" % (s.kind, s.text)
